@@ -5,6 +5,7 @@
 package api
 
 import (
+	"io"
 	"math/big"
 
 	"github.com/consensys/gnark-crypto/ecc"
@@ -53,6 +54,11 @@ type Ops struct {
 	P2Step       func(prev []byte) (Step, error)
 	P2Layout     func(b []byte) (*Layout, error)
 
+	// Reencode decodes an object ("p1", "p2" contribution or "commons") from a stream that delivers
+	// the bytes in the given piece sizes (cyclically) and writes it again; consumed = bytes the decoder
+	// reported.
+	Reencode func(kind string, b []byte, pieces []int) (out []byte, reported int64, err error)
+
 	Generator  func(group int) []byte
 	Scale      func(group int, p []byte, k *big.Int) ([]byte, error) // k·P, k may be negative or zero
 	IsInfinity func(group int, p []byte) bool
@@ -85,3 +91,34 @@ func Replace(b []byte, s Slot, p []byte) []byte {
 
 // At returns the bytes of slot s in b.
 func At(b []byte, s Slot) []byte { return b[s.Off : s.Off+s.Size] }
+
+// PieceReader delivers data in pieces of the given sizes (cyclically): an io.Reader may return
+// fewer bytes than asked for. It is not an io.ByteReader.
+type PieceReader struct {
+	Data   []byte
+	Pieces []int
+	pos, k int
+}
+
+func (f *PieceReader) Read(p []byte) (int, error) {
+	if f.pos >= len(f.Data) {
+		return 0, io.EOF
+	}
+	if len(p) == 0 {
+		return 0, nil
+	}
+	n := f.Pieces[f.k%len(f.Pieces)]
+	f.k++
+	if n > len(p) {
+		n = len(p)
+	}
+	if n > len(f.Data)-f.pos {
+		n = len(f.Data) - f.pos
+	}
+	copy(p, f.Data[f.pos:f.pos+n])
+	f.pos += n
+	return n, nil
+}
+
+// Pos is the number of bytes handed out so far.
+func (f *PieceReader) Pos() int { return f.pos }
